@@ -572,7 +572,7 @@ def malformed_step(sh):
     offers no opportunity for the class drawn"""
     rnd = sh.rnd
     c = rnd.choice(['create-name', 'create-name', 'create-dup', 'create-dup', 'create-type', 'array', 'array', 'frame', 'frame', 'frame', 'mtag', 'mtag',
-                    'sdata', 'sdata', 'adata', 'adata', 'adata',
+                    'sdata', 'sdata', 'adata', 'adata', 'adata', 'mkfrom', 'mkfrom', 'wrowbad', 'wrowbad', 'dimcol',
                     'prop', 'prop', 'feature', 'ladd', 'ladd', 'ladds', 'lset', 'lset', 'meta', 'meta', 'link', 'pos', 'ext', 'ext',
                     'data', 'type', 'def', 'units', 'extent', 'values', 'values', 'index', 'lindex'])
     if c in ('create-name', 'create-dup', 'create-type'):
@@ -618,6 +618,57 @@ def malformed_step(sh):
             r = rnd.choice([33, 33, 34, 40, 64])
             sh.mk(b, 'A', sh.pick_new_name(b, 'A', 0.1), 't', '%s %d %s' % (rnd.choice(['Double', 'Int32', 'String']), r,
                   ' '.join(str(rnd.choice([1, 1, 2])) for _ in range(r))), ok=False, cls='rank-above-32')
+        return True
+    if c == 'mkfrom':
+        # the header template createDataArray(name, type, data, data_type): data that cannot be converted into data_type
+        bs = sh.live('B')
+        if not bs:
+            return False
+        b = rnd.choice(bs)
+        numeric = ['Double', 'Float', 'Int32', 'Int64', 'UInt8']
+        if rnd.random() < 0.3:
+            mem = rnd.choice(numeric + ['String'])
+            dt = rnd.choice(['-', mem] if mem == 'String' else ['-', 'Double', 'Int16', 'UInt64', mem])
+            sh.mk(b, 'A', sh.pick_new_name(b, 'A', 0.1), 't', 'from %s %d %s' % (mem, rnd.choice([1, 3, 5]), dt))      # accepted
+        q = rnd.random()
+        if q < 0.4:
+            sh.mk(b, 'A', sh.pick_new_name(b, 'A', 0.1), 't', 'from %s %d String' % (rnd.choice(numeric), rnd.choice([1, 3, 5])), ok=False, cls='create-from-data-type')
+        elif q < 0.7:
+            sh.mk(b, 'A', sh.pick_new_name(b, 'A', 0.1), 't', 'from String %d %s' % (rnd.choice([1, 3]), rnd.choice(['Double', 'Int32', 'Bool'])), ok=False, cls='create-from-data-type')
+        elif q < 0.85:
+            sh.mk(b, 'A', sh.pick_new_name(b, 'A', 0.1), 't', 'from %s 2 Bool' % rnd.choice(numeric), ok=False, cls='create-from-data-type')
+        else:
+            sh.mk(b, 'A', sh.pick_new_name(b, 'A', 0.1), 't', 'from Double 3 %s' % rnd.choice(['Char', 'Nothing'.replace('Nothing', 'Char')]), ok=False, cls='unsupported-dtype')
+        return True
+    if c == 'wrowbad':
+        # DataFrame::writeRow that has to be refused, on a frame with rows and cells to lose
+        bs = sh.live('B')
+        if not bs:
+            return False
+        b = rnd.choice(bs)
+        cols = rnd.choice(['2 %s Int32 s: %s Double s:6d56' % (hx('c0'), hx('c1')), '2 %s String s: %s Int64 s:' % (hx('c0'), hx('c1')),
+                           '1 %s Double s:' % hx('c0'), '3 %s UInt32 s: %s String s: %s Bool s:' % (hx('c0'), hx('c1'), hx('c2'))])
+        d = sh.mk(b, 'D', sh.pick_new_name(b, 'D', 0.0), 't', cols)
+        rows = rnd.choice([1, 2, 4])
+        sh.emit('frows %d %d' % (d, rows))
+        for r in range(rows):
+            if rnd.random() < 0.7:
+                sh.emit('wrow %d %d %d' % (d, r, rnd.randrange(1000)))
+        how = rnd.choice(['row', 'row', 'type', 'type', 'many'])
+        row = rows + rnd.choice([0, 0, 1, 7]) if how == 'row' else rnd.randrange(rows)
+        sh.emit('wrowbad %d %d %s' % (d, row, how), 'frame-write-' + how)
+        return True
+    if c == 'dimcol':
+        # appendDataFrameDimension(frame, column_index) with an index past the columns
+        bs = sh.live('B')
+        if not bs:
+            return False
+        b = rnd.choice(bs)
+        d = sh.mk(b, 'D', sh.pick_new_name(b, 'D', 0.0), 't', '2 %s Int32 s: %s Double s:' % (hx('c0'), hx('c1')))
+        a = sh.mk(b, 'A', sh.pick_new_name(b, 'A', 0.0), 't', 'Double 1 3')
+        if rnd.random() < 0.5:
+            sh.emit('dim %d frame %d %d' % (a, d, rnd.choice([0, 1])))
+        sh.emit('dim %d frame %d %d' % (a, d, rnd.choice([3, 4, 9])), 'dim-column-index')
         return True
     if c in ('sdata', 'adata'):
         # whole-array setData(value) / appendData with elements that cannot be converted into the array's element type
@@ -944,6 +995,23 @@ def valid_mutation(sh):
     """one well-formed state change, to move the file to another reachable state"""
     rnd = sh.rnd
     r = rnd.random()
+    if r < 0.08:
+        # other routes to the same effect: explicit compression, the none_t unsetters, Feature::linkType
+        q = rnd.random()
+        bs = sh.live('B')
+        if q < 0.3 and bs:
+            b = rnd.choice(bs)
+            if rnd.random() < 0.5:
+                sh.mk(b, 'A', sh.pick_new_name(b, 'A', 0.1), 't', 'Double 2 2 3 z')
+            else:
+                sh.mk(b, 'D', sh.pick_new_name(b, 'D', 0.1), 't', '2 %s Int32 s: %s Double s: z' % (hx('c0'), hx('c1')))
+        elif q < 0.6:
+            ks = sh.live('X')
+            if ks:
+                sh.emit('setlt %d %s' % (rnd.choice(ks), rnd.choice(LT)))
+        else:
+            unlink_step(sh)
+        return
     if r < 0.4:
         sh.create(rnd.choice('BSPADTMGRX'), chk=False)
     elif r < 0.6:
@@ -1187,8 +1255,10 @@ def gen_c04_sequence(rnd, steps):
             if rnd.random() < 0.4:
                 for l in after_delete_queries(sh, k, 2):
                     sh.emit(l)
-        elif r < 0.8:
+        elif r < 0.75:
             sh.valid_link_step(chk=False)
+        elif r < 0.8:
+            unlink_step(sh)                      # includes the none_t overloads of metadata / link / extents
         elif r < 0.9:
             sh.create(rnd.choice('ADTMGRSX'), chk=False)
         else:
@@ -1212,7 +1282,35 @@ def modify_step(sh, st):
     rows of frames, descriptor count of arrays, value type of properties)"""
     rnd = sh.rnd
     c = rnd.choice(['type', 'def', 'def', 'label', 'unit', 'origin', 'poly', 'wdata', 'wdata', 'dim', 'dim', 'dimset', 'deldims',
-                    'frows', 'wrow', 'wrow', 'punit', 'puncert', 'pvals', 'repo', 'tpos', 'text', 'units', 'created', 'created', 'extent'])
+                    'frows', 'wrow', 'wrow', 'punit', 'puncert', 'pvals', 'repo', 'tpos', 'text', 'units', 'created', 'created', 'extent',
+                    'setlt', 'setlt', 'touchupd', 'touchupd', 'posq', 'colq', 'sdata', 'adata'])
+    if c == 'setlt':
+        ks = sh.live('X')
+        if ks:
+            sh.emit('setlt %d %s' % (rnd.choice(ks), rnd.choice(LT)))
+        return
+    if c == 'touchupd':
+        ks = sh.live('BSRADTMGPX')
+        if ks:
+            sh.emit('touchupd %d %s' % (rnd.choice(ks), rnd.choice(['set', 'force'])))
+        return
+    if c == 'posq':
+        ks = sh.live('M')
+        if ks:
+            sh.emit('posq %d' % rnd.choice(ks))
+        return
+    if c == 'colq':
+        colq_line(sh)
+        return
+    if c in ('sdata', 'adata'):
+        # accepted whole-array writes / appends through the templates (numeric data into a fresh numeric array)
+        bs = sh.live('B')
+        if bs:
+            b = rnd.choice(bs)
+            a = sh.mk(b, 'A', sh.pick_new_name(b, 'A', 0.0), 't', '%s 1 2' % rnd.choice(['Double', 'Int32', 'Float']))
+            sh.emit('sdata %d %s %d' % (a, rnd.choice(['Double', 'Int32', 'UInt8']), rnd.choice([1, 3, 6])) if c == 'sdata'
+                    else 'adata %d %s 0 1 %d' % (a, rnd.choice(['Double', 'Int32', 'Bool']), rnd.choice([1, 2, 4])))
+        return
     if c == 'type':
         ks = sh.live('BSRADTMG')
         if ks:
@@ -1308,9 +1406,37 @@ def modify_step(sh, st):
             sh.emit('forcecreated %d %d' % (rnd.choice(ks), 1000000000 + rnd.randrange(400000000)))
 
 
+def colq_line(sh):
+    """DataFrame::colIndex(names) / colName(indices): the frame's own columns in some order, sometimes an unknown one"""
+    rnd = sh.rnd
+    ks = sh.live('D')
+    if not ks:
+        return
+    d = rnd.choice(ks)
+    ex = (sh.e[d].get('extra') or '').split(' ')
+    try:
+        n = int(ex[0])
+    except ValueError:
+        return
+    names = [ex[1 + 3 * i] for i in range(n) if 1 + 3 * i < len(ex)]
+    pick = [rnd.choice(names) for _ in range(rnd.randint(0, 3))] if names else []
+    if rnd.random() < 0.15:
+        pick.append(hx('nosuchcolumn'))
+    idx = [rnd.randrange(n) for _ in range(rnd.randint(0, 3))] if n else []
+    if rnd.random() < 0.15:
+        idx.append(n + rnd.choice([0, 1, 5]))
+    sh.emit(('colq %d %d %s %d %s' % (d, len(pick), ' '.join(pick), len(idx), ' '.join(map(str, idx)))).replace('  ', ' ').strip())
+
+
 def unlink_step(sh):
     rnd = sh.rnd
-    what = rnd.choice(['lrm', 'lrm', 'lset', 'meta', 'link', 'ext'])
+    what = rnd.choice(['lrm', 'lrm', 'lset', 'meta', 'link', 'ext', 'meta-none', 'link-none', 'ext-none'])
+    if what.endswith('-none'):
+        # the none_t overloads
+        ks = sh.live({'meta-none': 'BRADTMG', 'link-none': 'S', 'ext-none': 'M'}[what])
+        if ks:
+            sh.emit('%s %d none' % ({'meta-none': 'setmeta', 'link-none': 'setlink', 'ext-none': 'setext'}[what], rnd.choice(ks)))
+        return
     if what in ('lrm', 'lset'):
         ls = sh.lcontainers()
         if not ls:
@@ -1339,7 +1465,7 @@ def unlink_step(sh):
             sh.emit('setext %d -' % rnd.choice(ks))
 
 
-REOPENS = ['reopen rw', 'reopen ro', 'reopen other', 'reopen otherw']
+REOPENS = ['reopen rw', 'reopen ro', 'reopen other', 'reopen otherw', 'reopen def']
 
 
 def ro_prepare(sh):
@@ -1492,6 +1618,154 @@ def gen_c02_case(rnd, steps, every_k, flavour):
     sh.emit('reopen otherw')
     sh.emit('observe')
     return Case(sh.lines, 'c02-' + (flavour.replace('reopen ', '') if every_k else 'end-only'), {'cls': sh.cls})
+
+
+# ------------------------------------------------------------------------------------------------
+# routes: further public entry points to the same requests (notes/route-audit.md)
+# ------------------------------------------------------------------------------------------------
+ROUTES = {
+    'lsf': 'X::ys(filter) with a non-default filter on a child container: File::blocks/sections, Block::dataArrays/dataFrames/tags/'
+           'multiTags/groups/sources, Section::sections/properties, Source::sources, Tag/MultiTag::features '
+           '(util::NameFilter, a negated NameFilter lambda, IdFilter, TypeFilter, MetadataFilter, SourceFilter)',
+    'llsf': 'Tag/MultiTag::references(filter), EntityWithSources::sources(filter), Group::dataArrays/dataFrames/tags/multiTags(filter)',
+    'dimsf': 'DataArray::dimensions(filter) against getDimension(1..n)',
+    'posq': 'MultiTag::hasPositions, MultiTag::positionCount',
+    'colq': 'DataFrame::colIndex(vector<string>), DataFrame::colName(vector<unsigned>)',
+    'setlt': 'Feature::linkType(LinkType)',
+    'touchupd': 'Entity::setUpdatedAt / forceUpdatedAt / updatedAt on live entities (updated_at is part of the raw dump of C02)',
+    'setmeta none': 'EntityWithMetadata::metadata(none_t)', 'setlink none': 'Section::link(none_t)', 'setext none': 'MultiTag::extents(none_t)',
+    'mk A from': 'template Block::createDataArray(name, type, data, data_type)',
+    'mk A z': 'Block::createDataArray(..., Compression)', 'mk D z': 'Block::createDataFrame(..., Compression)',
+    'dim frame col': 'DataArray::appendDataFrameDimension(frame, column_index)',
+    'reopen def': 'File::open(path) with every argument defaulted',
+    'wrowbad': 'DataFrame::writeRow refused (row past the end, unconvertible value, too many values), judged on the raw dump',
+    'sdata': 'template DataSet::setData(value)', 'adata': 'DataArray::appendData(dtype, ptr, count, axis)',
+    'File.updatedAt/location': 'File::updatedAt, File::location (raw dump of C02 at every reopen)',
+}
+
+
+def route_of(line):
+    t = line.split(' ')
+    c = t[0]
+    if c in ('lsf', 'llsf'):
+        return '%s %s %s' % (c, t[2], t[3])
+    if c in ('dimsf', 'posq', 'colq', 'setlt', 'touchupd', 'sdata', 'adata'):
+        return c
+    if c in ('setmeta', 'setlink', 'setext') and len(t) > 2 and t[2] == 'none':
+        return c + ' none'
+    if c == 'mk' and len(t) > 5 and t[2] == 'A' and t[5] == 'from':
+        return 'mk A from'
+    if c == 'mk' and t[-1] == 'z' and t[2] in 'AD':
+        return 'mk %s z' % t[2]
+    if c == 'dim' and len(t) > 4 and t[2] == 'frame':
+        return 'dim frame col'
+    if c == 'reopen' and len(t) > 1 and t[1] == 'def':
+        return 'reopen def'
+    if c == 'wrowbad':
+        return 'wrowbad ' + t[3]
+    return None
+
+
+def count_routes(cases):
+    out = {}
+    for cs in cases:
+        for l in cs.lines:
+            r = route_of(l)
+            if r:
+                out[r] = out.get(r, 0) + 1
+    return dict(sorted(out.items()))
+
+
+FILTERS_FOR = {'B': ['name', 'notname', 'id', 'type', 'meta'], 'S': ['name', 'notname', 'id', 'type'], 'R': ['name', 'notname', 'id', 'type', 'meta'],
+               'P': ['name', 'notname', 'id'], 'X': ['id'], 'A': ['name', 'notname', 'id', 'type', 'meta', 'src'],
+               'D': ['name', 'notname', 'id', 'type', 'meta', 'src'], 'T': ['name', 'notname', 'id', 'type', 'meta', 'src'],
+               'M': ['name', 'notname', 'id', 'type', 'meta', 'src'], 'G': ['name', 'notname', 'id', 'type', 'meta', 'src']}
+
+
+def filter_arg(sh, K, fk, members):
+    """an argument for filter kind fk on entities of kind K: mostly one that selects a member, sometimes one that selects nothing"""
+    rnd = sh.rnd
+    if fk in ('meta', 'src'):
+        pool = sh.live('S' if fk == 'meta' else 'R')
+        dead = sh.dead('S' if fk == 'meta' else 'R')
+        r = rnd.random()
+        if pool and r < 0.8:
+            return str(rnd.choice(pool))
+        if dead and r < 0.9:
+            return str(rnd.choice(dead))
+        return '-'
+    if fk == 'type':
+        return hx(rnd.choice(TYPES + ['t2', 'nix', 'nix.typ', 'nixXtype', '.*']))
+    if members and rnd.random() < 0.75:
+        k = rnd.choice(members)
+        if fk == 'id':
+            return 'i:%d' % k
+        nm = sh.e[k]['name']
+        return 'n:%d' % k if nm is not None else hx('x')
+    if fk == 'id':
+        return rnd.choice(['i:%d' % rnd.randrange(max(1, len(sh.e))), hx(UUID1)])
+    return sh.random_key() if rnd.random() < 0.5 else hx(rnd.choice(PLAIN))
+
+
+def filter_queries(sh, n):
+    """n filtered enumerations over child containers, link containers and descriptor lists"""
+    rnd = sh.rnd
+    for _ in range(n):
+        r = rnd.random()
+        if r < 0.55:
+            p, K = rnd.choice(sh.containers())
+            fk = rnd.choice(FILTERS_FOR[K])
+            sh.emit('lsf %s %s %s %s' % (sh.ptok(p), K, fk, filter_arg(sh, K, fk, sh.live(K, p=p))))
+        elif r < 0.9:
+            ls = sh.lcontainers()
+            if not ls:
+                continue
+            h, sl = rnd.choice(ls)
+            K = SLKIND[sl]
+            fk = rnd.choice(FILTERS_FOR[K])
+            sh.emit('llsf %d %s %s %s' % (h, sl, fk, filter_arg(sh, K, fk, sh.live(K, block=sh.block_of(h)))))
+        else:
+            ks = sh.live('A')
+            if ks:
+                sh.emit('dimsf %d %s' % (rnd.choice(ks), rnd.choice(['set', 'range', 'sampled', 'alias', 'frame'])))
+
+
+def gen_c03_filter_case(rnd):
+    """a dense graph (many members per container, metadata and source links), then filtered enumerations of every kind,
+    interleaved with deletes, unlinks and a reopen"""
+    sh = Shadow(rnd)
+    build_graph(sh, size=rnd.choice([0.7, 1.0, 1.3]), reopen_at=rnd.choice([None, 6]))
+    # every container once with every filter kind it supports
+    for p, K in sh.containers():
+        for fk in FILTERS_FOR[K]:
+            if rnd.random() < 0.5:
+                sh.emit('lsf %s %s %s %s' % (sh.ptok(p), K, fk, filter_arg(sh, K, fk, sh.live(K, p=p))))
+    for h, sl in sh.lcontainers():
+        K = SLKIND[sl]
+        fk = rnd.choice(FILTERS_FOR[K])
+        sh.emit('llsf %d %s %s %s' % (h, sl, fk, filter_arg(sh, K, fk, sh.live(K, block=sh.block_of(h)))))
+    for a in sh.live('A'):
+        if rnd.random() < 0.5:
+            sh.emit('dimsf %d %s' % (a, rnd.choice(['set', 'range', 'sampled', 'alias', 'frame'])))
+    for _ in range(rnd.randint(3, 8)):
+        r = rnd.random()
+        live = sh.live('BSPADTMGRX')
+        if r < 0.4 and live:
+            k = rnd.choice(live)
+            sh.emit(delete_lines(sh, k, rnd.choice(['name', 'id', 'handle'])))
+            sh.kill(k)
+        elif r < 0.6:
+            unlink_step(sh)
+        elif r < 0.8:
+            sh.valid_link_step(chk=False)
+        else:
+            sh.emit('reopen')
+            after_reopen(sh)
+        filter_queries(sh, rnd.randint(2, 6))
+    sh.emit('reopen')
+    after_reopen(sh)
+    filter_queries(sh, 8)
+    return Case(sh.lines, 'c03-filters', {'cls': sh.cls})
 
 
 def load_corpus(pid):
